@@ -20,8 +20,12 @@ def main():
     ap.add_argument("--tier", default="quick")
     ap.add_argument("--seed", default="0")
     ap.add_argument("--keep", action="store_true")
+    ap.add_argument("--at-base", action="store_true", help="apply the patch to the commit the seed was written against")
+    ap.add_argument("--base-only", action="store_true", help="run on that base commit without the patch")
     a = ap.parse_args()
     patch = a.target if a.target.endswith(".diff") else os.path.join(a.target, "patch.diff")
+    if not a.target.endswith(".diff") and not (a.at_base or a.base_only) and os.path.exists(os.path.join(a.target, "patch.head.diff")):
+        patch = os.path.join(a.target, "patch.head.diff")    # the same change re-made on the current tree (a later fix: touched its lines)
     meta = {}
     mp = os.path.join(os.path.dirname(patch), "meta.json")
     if os.path.exists(mp):
@@ -39,6 +43,16 @@ def main():
             print("REVERT-CONFLICT", r.stderr[-200:].replace("\n", " "))
             subprocess.run(["git", "-C", "/repo", "worktree", "remove", "--force", copy])
             return 3
+    elif a.at_base or a.base_only:
+        # the tree the seed was written against (later fix: commits can neutralise a seeded change); the verdict of
+        # interest is then the set of mechanisms reported with the patch that the base alone does not report
+        subprocess.run(["git", "-C", "/repo", "worktree", "add", "-q", "--detach", copy, meta["base_commit"]], check=True)
+        if not a.base_only:
+            r = subprocess.run(["git", "-C", copy, "apply", os.path.abspath(patch)], capture_output=True, text=True)
+            if r.returncode != 0:
+                print("PATCH-FAILED", r.stderr[-300:])
+                subprocess.run(["git", "-C", "/repo", "worktree", "remove", "--force", copy])
+                return 3
     else:
         subprocess.run(["rsync", "-a", "--exclude", ".git", "--exclude", "__pycache__", "/repo/", copy + "/"], check=True)
         r = subprocess.run(["git", "apply", "--unsafe-paths", "--directory", copy, os.path.abspath(patch)], cwd="/", capture_output=True, text=True)
@@ -56,7 +70,7 @@ def main():
         lines = [l for l in pr.stdout.splitlines() if l.startswith(("VIOLATION", "  mechanism", "INCONCLUSIVE", "KNOWN"))]
         verdict = {0: "held", 1: "VIOLATION", 2: "inconclusive"}.get(pr.returncode, "rc=%d" % pr.returncode)
         mechs = [l.split("mechanism=")[1].split(" count=")[0] for l in lines if "mechanism=" in l and "KNOWN" not in l]
-        results[p] = {"verdict": verdict, "mechanisms": mechs[:8], "wall_s": round(time.time() - t0, 1)}
+        results[p] = {"verdict": verdict, "mechanisms": mechs, "counts": {l.split("mechanism=")[1].split(" count=")[0]: int(l.split(" count=")[1].split()[0]) for l in lines if "mechanism=" in l and "KNOWN" not in l}, "wall_s": round(time.time() - t0, 1)}
         print("%s %-12s %5.1fs %s" % (p, verdict, time.time() - t0, "; ".join(mechs[:4])))
         if pr.returncode not in (0, 1, 2):
             print(pr.stderr[-500:])
